@@ -15,6 +15,7 @@ parse_file (const char *file, eav_t *eav)
     char *line = NULL;
     char *cp = line;
     size_t len = 0;
+    size_t size = 0; /* size of the buffer allocated by getline() */
     ssize_t read = 0;
     int passed = 0;
     int failed = 0;
@@ -25,7 +26,7 @@ parse_file (const char *file, eav_t *eav)
         return;
     }
 
-    while ((read = getline (&line, &len, fh)) != EOF) {
+    while ((read = getline (&line, &size, fh)) != EOF) {
         if (read >= 2 && (memcmp(line + read - 2, "\r\n", 2)) == 0)
             line[read-2] = '\0';
         else if (read >= 1 && line[read-1] == '\n')
@@ -42,7 +43,7 @@ parse_file (const char *file, eav_t *eav)
         len = strlen (cp);
 
         /* remove white-space in the end */
-        if (cp[len - 1] == ' ' || cp[len - 1] == '\t')
+        if (len > 0 && (cp[len - 1] == ' ' || cp[len - 1] == '\t'))
             cp[--len] = '\0';
 
         if (eav_is_email (eav, cp, len)) {
